@@ -17,6 +17,7 @@ Definition norm_log (l : list (nat * nat * list MiniCConc.event)) : list (nat * 
 
 Theorem SRC_protocol_follows_PipeConc : forall c T (ispadding : bool) input sched s log,
   (1 <= c)%nat -> (N.of_nat (16 * c) < 2 ^ 32)%N -> (1 <= T <= 16)%nat -> bytesb input = true ->
+  (N.of_nat (length input) < 2 ^ 36)%N ->      (* fewer than 2^32 blocks: the harness' stream object counts blocks in a u32 *)
   tag_run c T ispadding input sched = Some (s, log) ->
   exists cs log',
     conc_src_run c T ispadding input sched = SOk (cs, log') /\
